@@ -199,6 +199,15 @@ theorem C10_minimizer_defect :
     leftmostArgmin [5, int64Max, int64Max, 3] 1 2 = some 1 := by
   decide
 
+/-- **Partial** (bounded, exhaustive — *not* a proof for all inputs): for every key list of length
+2…5 over three distinct key values (all ties and chunk-border positions) and every window 2…4 the
+chunk-wise forward/reverse arg-cum-min combination returns the leftmost minimum of every window.
+The unbounded statement `C10_minimizer` (all keys `< INT64_MAX`) is not proved; see notes/C10.md. -/
+theorem C10_minimizer_partial :
+    ∀ n ∈ [2, 3, 4, 5], ∀ w ∈ [2, 3, 4], w ≤ n →
+      ∀ ord ∈ keyLists n, minimizeAgrees ord w = true := by
+  decide +kernel
+
 /-- Syncmer filter: index `i` is selected iff the relative position of its minimum s-mer is one of
 the (normalised) offsets. -/
 theorem C10_syncmer_filter (offs : List Nat) (rel : List Int) (i : Nat) :
